@@ -88,8 +88,23 @@ Recover ==
                                 p \in pre, m \in {x \in A : x.then = "sync"}, q \in post} : Canonical(h)})
   IN [i \in 1..Len(hs) |-> [kind |-> GKind, fam |-> "recover", srcs |-> SrcSeq(1), steps |-> hs[i]]]
 
+(* several sources change between two provider runs: every source is loaded (v1), then every       *)
+(* source gets one change (new version / invalid / refused by the processor / emptied / removed)    *)
+(* and only then the provider runs; optionally all sources are repaired (v2) afterwards             *)
+MultiOps == IF GKind = "informer" THEN {<<"set", "v2">>, <<"set", "bad">>, <<"remove", "">>}
+            ELSE {<<"set", "v2">>, <<"set", "invalid">>, <<"set", "bad">>, <<"set", "empty">>, <<"remove", "">>}
+MultiOf(n) ==
+  LET S == SrcSeq(n)
+      last(i) == IF i = n THEN "sync" ELSE "none"
+      pre == [i \in 1..n |-> Step("set", S[i], "v1", last(i))]
+      mid(f) == [i \in 1..n |-> Step(f[i][1], S[i], f[i][2], last(i))]
+      rep == [i \in 1..n |-> Step("set", S[i], "v2", last(i))]
+      hs == SetToSeq({pre \o mid(f) : f \in [1..n -> MultiOps]} \cup {pre \o mid(f) \o rep : f \in [1..n -> MultiOps]})
+  IN [i \in 1..Len(hs) |-> [kind |-> GKind, fam |-> "multi", srcs |-> S, steps |-> hs[i]]]
+Multi == IF Env("VERIF_GEN_MULTI", "0") # "1" THEN <<>> ELSE MultiOf(2) \o MultiOf(3)
+
 ASSUME
-  LET all == Exhaustive \o Random \o Recover IN
+  LET all == Exhaustive \o Random \o Recover \o Multi IN
   /\ ndJsonSerialize(OutFile, all)
   /\ PrintT(<<"GENERATED", Len(all) - NRandom, NRandom>>)
 =============================================================================
